@@ -236,6 +236,8 @@ def gen_plan(seed, prop, faults, nested=False):
                 F.append(gen.gen_fairness(rng, n))
             if not F and shape == 'fairfriendly':
                 F.append(gen.gen_fairness(rng, n))
+            if rng.random() < 0.2:
+                F.append([])          # no constraint at all: F=[]
             if F and rng.random() < 0.7:
                 # same union of states, different partition
                 union = sorted(set(x for P in F[0] for x in P))
@@ -313,8 +315,11 @@ def gen_plan(seed, prop, faults, nested=False):
             q['form'] = 'text'
             # a fresh default parser costs ~90 ms of Lark grammar analysis
             q['parser'] = rng.choice(['none', 'shared', 'shared'])
-        if structs[ki]['F'] and q['mc'] != 'LTL' and \
-                rng.random() < (0.6 if prop == 'C07' else 0.25):
+        if structs[ki]['F'] and rng.random() < (
+                (0.6 if prop == 'C07' else 0.25) *
+                (0.4 if q['mc'] == 'LTL' else 1.0)):
+            # (LTL with F raises TypeError on the pinned tree - C15 - but the
+            # call is cheap and becomes meaningful once that is repaired)
             q['F'] = rng.randrange(len(structs[ki]['F']))
         return q
 
@@ -327,7 +332,7 @@ def gen_plan(seed, prop, faults, nested=False):
                 ops.append({'op': 'edit', 'k': ki,
                             'i': rng.randrange(structs[ki]['A']['n']),
                             'how': rng.choice(['add', 'discard', 'toggle',
-                                               'replace']),
+                                               'replace', 'replace_extra']),
                             'label': rng.choice(atoms)})
                 # ask something about that structure again soon
                 prev = [j for j in calls if ops[j]['q']['k'] == ki]
@@ -481,8 +486,12 @@ class Pool(object):
         K = self.K[op['k']]
         st = list(K.states())[op['i']]
         lab = op['label']
-        if op['how'] == 'replace':
+        if op['how'] in ('replace', 'replace_extra'):
             L = dict((s, set(K.labels(s))) for s in K.states())
+            if op['how'] == 'replace_extra':
+                # a labelling that also mentions something that is not a
+                # state (replace_labelling_function takes any dict)
+                L['retired-state'] = set([lab, 'p'])
             if lab in L[st]:
                 L[st].discard(lab)
             else:
